@@ -30,6 +30,8 @@
 #include <stdexcept>
 #include <variant>
 #include <cassert>
+#include <charconv>
+#include <cmath>
 #include <cstring>
 
 using namespace UTAP;
@@ -1009,6 +1011,17 @@ std::ostream& expression_t::print_bound_type(std::ostream& os, expression_t e) c
     return os;
 }
 
+/** Prints the shortest text that reads back as exactly the same double and lexes as a floating-point literal. */
+static std::ostream& print_double(std::ostream& os, double value)
+{
+    char buf[40];
+    auto res = std::to_chars(buf, buf + sizeof(buf), value);
+    auto text = std::string(buf, res.ptr);
+    if (std::isfinite(value) && text.find_first_of(".e") == std::string::npos)
+        text += ".0";  // "3" would come back as an integer
+    return os << text;
+}
+
 static const char* get_builtin_fun_name(kind_t kind)
 {
     // the order must match declarations in include/utap/common.h
@@ -1119,7 +1132,7 @@ std::ostream& expression_t::print(std::ostream& os, bool old) const
         print_bound_type(os, get(1));
         get(2).print(os, old);
         os << (flag ? "]([] " : "](<> ");
-        get(3).print(os, old) << ") >= " << get(4).get_double_value();
+        print_double(get(3).print(os, old) << ") >= ", get(4).get_double_value());
         break;
 
     case PROBA_BOX: flag = true; [[fallthrough]];
@@ -1290,7 +1303,7 @@ std::ostream& expression_t::print(std::ostream& os, bool old) const
     case CONSTANT:
 
         if (get_type().is(Constants::DOUBLE)) {
-            os << get_double_value();
+            print_double(os, get_double_value());
         } else if (get_type().is_string()) {
             os << get_string_value();
         } else if (get_type().is_integer()) {
